@@ -130,29 +130,30 @@ type slotKey struct {
 
 // Grammar is the result of E7.
 type Grammar struct {
-	Rules      map[int]*GRule
-	RuleOrder  []int
-	SR, RR     int
-	YOutput    string
-	GenSrc     []byte // regenerated grammar.go
-	Actions    map[int]*ast.CaseClause
-	Vals       map[string]*AVal // per nonterminal
-	Slots      map[slotKey]ShapeSet
-	NextShapes ShapeSet
-	RootShapes ShapeSet
-	Built      ShapeSet // every shape any action constructs
-	Unknown    []string // constructs the interpreter did not understand
-	SetPredIn  []int    // rules whose action calls setPred
-	SetResIn   []int    // rules whose action calls setResult
-	Tokens     map[string]bool
-	NilPaths   []string      // actions with a path that leaves a node-typed $$ unset without recording an error
-	ProdVals   map[int]*AVal // what each production's action assigns to $$
-	YSrc       string
-	Prec       map[string]int    // token → precedence level (1 = lowest), from %left/%right/%nonassoc
-	Assoc      map[string]string // token → left|right|nonassoc
-	ProdPrec   map[int]string    // production → %prec token, if any
-	p          *Prog
-	ctorMemo   map[string]*AVal
+	Rules       map[int]*GRule
+	RuleOrder   []int
+	SR, RR      int
+	YOutput     string
+	GenSrc      []byte // regenerated grammar.go
+	Actions     map[int]*ast.CaseClause
+	Vals        map[string]*AVal // per nonterminal
+	Slots       map[slotKey]ShapeSet
+	NextShapes  ShapeSet
+	RootShapes  ShapeSet
+	Built       ShapeSet // every shape any action constructs
+	Unknown     []string // constructs the interpreter did not understand
+	SetPredIn   []int    // rules whose action calls setPred
+	SetResIn    []int    // rules whose action calls setResult
+	Tokens      map[string]bool
+	NilPaths    []string      // actions with a path that leaves a node-typed $$ unset without recording an error
+	ProdVals    map[int]*AVal // what each production's action assigns to $$
+	YSrc        string
+	Prec        map[string]int    // token → precedence level (1 = lowest), from %left/%right/%nonassoc
+	Assoc       map[string]string // token → left|right|nonassoc
+	ProdPrec    map[int]string    // production → %prec token, if any
+	ProdPrecErr string
+	p           *Prog
+	ctorMemo    map[string]*AVal
 }
 
 var itemRe = regexp.MustCompile(`^\t([A-Za-z_$][A-Za-z_0-9$]*):\s+(.*?)\.\s+\((\d+)\)\s*$`)
@@ -270,6 +271,7 @@ func (p *Prog) buildGrammar() (*Grammar, error) {
 	}
 	g.interpret()
 	g.parsePrec()
+	g.parseProdPrec()
 	return g, nil
 }
 
@@ -294,6 +296,128 @@ func (g *Grammar) parsePrec() {
 			g.Assoc[tok] = m[1]
 		}
 	}
+}
+
+// parseProdPrec reads the rules section of grammar.y and records, for each
+// production in goyacc's numbering (1-based, in file order), the token of its
+// %prec annotation. The alternatives are cross-checked against the rules
+// goyacc reports; a mismatch leaves ProdPrecErr set.
+func (g *Grammar) parseProdPrec() {
+	parts := strings.SplitN(g.YSrc, "\n%%", 3)
+	if len(parts) < 2 {
+		g.ProdPrecErr = "no rules section"
+		return
+	}
+	src := parts[1]
+	// strip actions {...} (nested), strings/char literals and comments
+	var clean strings.Builder
+	depth := 0
+	for i := 0; i < len(src); i++ {
+		c := src[i]
+		switch {
+		case depth == 0 && c == '/' && i+1 < len(src) && src[i+1] == '/':
+			for i < len(src) && src[i] != '\n' {
+				i++
+			}
+			clean.WriteByte('\n')
+		case depth == 0 && c == '/' && i+1 < len(src) && src[i+1] == '*':
+			for i+1 < len(src) && !(src[i] == '*' && src[i+1] == '/') {
+				i++
+			}
+			i++
+		case c == '\'' && i+2 < len(src) && depth == 0:
+			j := i + 1
+			for j < len(src) && src[j] != '\'' {
+				if src[j] == '\\' {
+					j++
+				}
+				j++
+			}
+			clean.WriteString(src[i : j+1])
+			i = j
+		case c == '\'' || c == '"' || c == '`':
+			// inside an action: skip the literal
+			q := c
+			j := i + 1
+			for j < len(src) && src[j] != q {
+				if src[j] == '\\' && q != '`' {
+					j++
+				}
+				j++
+			}
+			i = j
+		case c == '{':
+			depth++
+		case c == '}':
+			depth--
+		case depth == 0:
+			clean.WriteByte(c)
+		}
+	}
+	n := 0
+	for _, rule := range strings.Split(clean.String(), ";") {
+		rule = strings.TrimSpace(rule)
+		if rule == "" {
+			continue
+		}
+		colon := strings.Index(rule, ":")
+		if colon < 0 {
+			continue
+		}
+		lhs := strings.TrimSpace(rule[:colon])
+		for _, alt := range strings.Split(rule[colon+1:], "|") {
+			n++
+			f := strings.Fields(alt)
+			var rhs []string
+			prec := ""
+			for i := 0; i < len(f); i++ {
+				if f[i] == "%prec" && i+1 < len(f) {
+					prec = f[i+1]
+					i++
+					continue
+				}
+				rhs = append(rhs, f[i])
+			}
+			r := g.Rules[n]
+			if r == nil || r.LHS != lhs || len(r.RHS) != len(rhs) {
+				g.ProdPrecErr = fmt.Sprintf("production %d of grammar.y (%s: %s) does not match goyacc's rule %d", n, lhs, strings.Join(rhs, " "), n)
+				return
+			}
+			for i := range rhs {
+				if r.RHS[i] != rhs[i] {
+					g.ProdPrecErr = fmt.Sprintf("production %d of grammar.y (%s: %s) does not match goyacc's rule %d (%s)", n, lhs, strings.Join(rhs, " "), n, strings.Join(r.RHS, " "))
+					return
+				}
+			}
+			if prec != "" {
+				g.ProdPrec[n] = prec
+			}
+		}
+	}
+}
+
+// prodLevel: the precedence level yacc gives production n: its %prec token's,
+// else that of its last terminal that has one; 0 if none.
+func (g *Grammar) prodLevel(n int) int {
+	l, _ := g.prodLevelTok(n)
+	return l
+}
+
+func (g *Grammar) prodLevelTok(n int) (int, string) {
+	if t, ok := g.ProdPrec[n]; ok {
+		return g.Prec[t], t
+	}
+	lvl, tok := 0, ""
+	if r := g.Rules[n]; r != nil {
+		for _, s := range r.RHS {
+			if g.Tokens[s] {
+				if l, ok := g.Prec[s]; ok {
+					lvl, tok = l, s
+				}
+			}
+		}
+	}
+	return lvl, tok
 }
 
 func (g *Grammar) isNT(s string) bool { return !g.Tokens[s] }
